@@ -51,8 +51,15 @@ class Node:
             self.s.advance(300_000)
             self.unmastered = getattr(self, "unmastered", 0) + 1
 
-    def feed_seq(self, raws, pipes):
+    def feed_seq(self, raws, pipes, route_timeout=None):
         chip, o, s = self.chip, self.o, self.s
+        if route_timeout is not None:
+            keep = o.route_timeout
+            o.route_timeout = route_timeout
+            try:
+                return self.feed_seq(raws, pipes)
+            finally:
+                o.route_timeout = keep
         self.restore_master()
         self.k = getattr(self, "k", 0) + 1
         if self.role != "routing":
@@ -67,15 +74,18 @@ class Node:
             r = chip.inject(pipe, raw)
             if r[1] != "new":      # the node's radio does not take a packet sent to one of its own pipe addresses
                 return dict(k="seq", role=self.role, level=self.level, addr=self.addr, raws=[list(r_) for r_ in raws], exc="Deaf",
-                            queued=0, ntx=0, sent=[], dt=0, bound=1200000, cls="seq", typ=-2, left=0)
+                            queued=0, ntx=0, sent=[], dt=0, bound=1200000, cls="seq", typ=-2, left=0, dtmax=0, ubound=1)
         q0 = len(o.queue)
         self.air.log.clear()
         t0 = s.now
         s.deadline = t0 + 3_000_000_000
         exc = "none"
+        dtmax = 0
         try:
             for _ in range(4):
+                t1 = s.now
                 o.update()
+                dtmax = max(dtmax, (s.now - t1) // 1000)
                 if not chip.rx:
                     break
         except sim.WatchdogExpired:
@@ -91,7 +101,8 @@ class Node:
         while o.available():
             o.read()
         return dict(k="seq", role=self.role, level=self.level, addr=self.addr, raws=[list(r) for r in raws], exc=exc,
-                    queued=max(0, q1 - q0), ntx=len(sent), sent=sent, dt=int(dt), bound=1200000, cls="seq", typ=-2, left=left)
+                    queued=max(0, q1 - q0), ntx=len(sent), sent=sent, dt=int(dt), bound=1200000, cls="seq", typ=-2, left=left,
+                    dtmax=int(dtmax), ubound=int(2 * (o.tx_timeout + o.route_timeout) * 1000 + 60000))
 
     def feed(self, raw, pipe):
         chip, o, s = self.chip, self.o, self.s
@@ -186,6 +197,10 @@ def work(args):
                 H(0o7, me, 198), H(0o2, me, 148, 4), H(0o2, me, 150, 4), b"\x01\x02\x03", b"", H(0o2, 0o3 if me != 0o3 else 0o4, 65),
                 H(0o12, me, 195), H(0o312, 0o100, 195), H(0o2, 0o6, 0), H(0o2, 0o17, 65)]   # requests relayed by level-2/3 nodes: the master's answer is routed and waits for a NETWORK_ACK while the next frames arrive
         seqs = [(a, b) for a in pool for b in pool]
+        # three requests relayed by level-2/3 nodes waiting together: each update() serves one and still returns in time
+        for sq in [(H(0o12, me, 195), H(0o312, 0o100, 195), H(0o22, me, 195)), (H(0o312, me, 195), H(0o12, me, 195), H(0o13, me, 195)),
+                   (H(0o12, me, 195), H(0o13, me, 195), H(0o14, me, 195))]:
+            out.append(nd.feed_seq(list(sq), [2, 2, 3], route_timeout=75))     # with the default route time-out
         seqs += [tuple(rng.choice(pool) for _ in range(3)) for _ in range(60)]
         for sq in seqs:
             out.append(nd.feed_seq(list(sq), [rng.choice([1, 2, 5]) for _ in sq]))
@@ -222,7 +237,7 @@ def run(chk):
             me = LEVEL_ADDR[level] if role != "master" else 0
             for typ in (196, 198, 197, 195, 128):
                 for n in range(0, 5):
-                    for frm in (0o2, 0o4444, 0):
+                    for frm in (0o2, 0o4444, 0, 0o4, 0o44, 0o444, 0o1234):
                         extra.append(list(struct.pack("<HHHBB", frm, me, 7, typ, rng.choice([0, 5, 200]))) + [rng.choice([0, 5, 200, 255]) for _ in range(n)])
             parts = 4 if not quick else 1
             for k in range(parts):
